@@ -494,7 +494,9 @@ def _run(tape, helper_dir):
         # import of a Scenic module + a fault point at top level (both run at compile time)
         lines = src1.split("\n")
         k = max(i for i, ln in enumerate(lines) if ln.startswith("from simverif")) + 1
-        lines[k:k] = ["import c14helper", "fault('toplevel')"]
+        # (as a plain import or as the program's world model: `model` has its own global state)
+        how = "model c14helper" if tape.chance(1, 2, "helper.as_model") else "import c14helper"
+        lines[k:k] = [how, "fault('toplevel')"]
         src1 = "\n".join(lines)
     g2 = dyngen.Gen(tape, FEAT2)
     prog2 = g2.program()
